@@ -6,7 +6,9 @@ from .relational_common import NAT_LEAN, NAT_LEAN_NH, NAT_NOTE, INSTANCE_NOTE
 
 def check(tier, seed):
     d = Decision("C15", tier, seed)
-    d.add_units(fold_canaries(run_units(specs_masks(tier) + specs_solver(tier) + specs_evals(tier) + specs_wiring(tier))))
+    from .implicit_props import specs_direct
+    # implicit mode: the laws hold iff the implicit solver meets its contract for explicit levels listed in any order (per-level Green's functions)
+    d.add_units(fold_canaries(run_units(specs_masks(tier) + specs_solver(tier) + specs_evals(tier) + specs_wiring(tier) + specs_direct(tier))))
     d.add_lean(NAT_LEAN + NAT_LEAN_NH + ["PV.shift_cov", "PV.scale_cov", "PV.C02_adjoint", "PV.Laws.conj_law"])
     d.assumptions += [NAT_NOTE,
                       INSTANCE_NOTE + "conjugation by a block-permutation / state-permutation matrix, by a unitary acting inside levels of H_0 that the kept pattern treats "
@@ -24,4 +26,6 @@ def check(tier, seed):
                      "machine-checked corollaries.  The code-level obligations are those on the masks, flags and solver, discharged on the real code in this run.")
     d.run_battery("rel_battery.py", ["covariance"], "8 layouts (<= 3 blocks, n <= 5, full and selective diagonalization, Hermitian and non-Hermitian-exact), all block "
                   "relabellings, one random state permutation, random unitaries inside degenerate levels, conjugation, 2 shifts, 2 scales, direct sum with a 3-level system; orders <= 3")
+    d.run_battery("rel_battery.py", ["covariance_implicit"], "implicit mode with the direct solver, n = 9 (+7), 3 (+2) explicit levels, real / complex: 3 permutations of the explicit "
+                  "eigenvectors, shift, direct sum of two systems whose explicit levels interleave in energy; orders <= 3")
     return d.finish(level="proof", trusted_base=["leanalg/lean/PV/*.lean", "leanalg/genlean.py", "leanalg/extract.py", "contracts/*.py"])
